@@ -301,6 +301,44 @@ theorem refParse_trim_total (cfg : Cfg) (x : List Char)
     rw [hr']
     exact refParse_total cfg c r' (h ws c r rfl h1 h2)
 
+/-- `Link`'s own `len_utf8` is `Char.utf8Size` (what `WsAscii` of `BInv` speaks about) -/
+theorem linkClen_eq (c : Char) : Link.clen c = c.utf8Size := by
+  unfold Link.clen Char.utf8Size
+  simp only [UInt32.le_iff_toNat_le, UInt32.toNat_ofNatLT, Char.toNat]
+  repeat' split
+  all_goals omega
+
+/-- in `a ++ b :: t` with `a` and `b` one byte wide and `b` not whitespace, the first
+    non-whitespace character is one byte wide -/
+theorem first_nonws_ascii : ∀ (a : List Char) (b : Char) (t : List Char),
+    (∀ d ∈ a, d.utf8Size = 1) → b.utf8Size = 1 → isWsChar b = false →
+    ∀ ws c r, a ++ b :: t = ws ++ c :: r → (∀ d ∈ ws, isWsChar d = true) → isWsChar c = false →
+      Link.clen c = 1
+  | [], b, t, _, hb, hbw, ws, c, r, h, hws, _ => by
+    cases ws with
+    | nil => simp at h; rw [← h.1, linkClen_eq]; exact hb
+    | cons d ws' =>
+      simp at h
+      have := hws d (by simp)
+      rw [← h.1, hbw] at this; cases this
+  | a0 :: a', b, t, ha, hb, hbw, ws, c, r, h, hws, hc => by
+    cases ws with
+    | nil => simp at h; rw [← h.1, linkClen_eq]; exact ha a0 (by simp)
+    | cons d ws' =>
+      simp at h
+      exact first_nonws_ascii a' b t (fun x hx => ha x (List.mem_cons_of_mem _ hx)) hb hbw ws' c r h.2
+        (fun x hx => hws x (List.mem_cons_of_mem _ hx)) hc
+
+/-- **the shape the reference rule produces**: `get_lines` answers one-byte characters (kept
+    indentation) in front of the `[` of the first line; `refParse ∘ trim` does not panic on it,
+    whatever follows. -/
+theorem refParse_trim_ascii (cfg : Cfg) (a : List Char) (b : Char) (t : List Char)
+    (ha : ∀ d ∈ a, d.utf8Size = 1) (hb : b.utf8Size = 1) (hbw : isWsChar b = false) :
+    ∃ y, refParse cfg (trimStr (a ++ b :: t)) = .ok y :=
+  refParse_trim_total cfg _ (first_nonws_ascii a b t ha hb hbw)
+
+theorem isWsChar_lbrack : isWsChar '[' = false := by decide
+
 /-! ## the hypothesis is necessary -/
 
 /-- which panic, if any -/
